@@ -120,6 +120,16 @@ def run(prop: str, tier: str, seed: int) -> int:
         cases.append(rec)
         rep.family(f"solve-{fam}", len(rec["steps"]), len(rec["steps"]))
         rep.nontrivial += len(rec["steps"])
+    # many cities: index and tour storage beyond the 8-bit ranges (127/128, 255/256), small distances so that
+    # equal-length moves and frequency collisions stay frequent
+    for n in ([128, 257] if tier == "quick" else [127, 128, 129, 255, 256, 257, 300]):
+        M = ts.random_matrix(rng, n, rng.choice([2, 5]), True, zeros=0)
+        inst = ts.make_instance(M)
+        for algo in ("ea", "fea"):
+            rec = solve_case(f"many-cities-{n}-{algo}", M, inst, algo, rng.randrange(1 << 30), 120)
+            cases.append(rec)
+            rep.family("solve-many-cities(127..300)", len(rec["steps"]), len(rec["steps"]))
+            rep.nontrivial += len(rec["steps"])
     I = ts.mods()["Instance"]
     for nm in (["gr17", "gr21", "bays29"] if tier == "quick" else ["gr17", "gr21", "gr24", "fri26", "bays29", "att48",
                                                                    "berlin52", "eil51", "st70"]):
